@@ -7,12 +7,15 @@ package racew
 import (
 	"fmt"
 	"os"
+	"reflect"
 	"sync"
 	"sync/atomic"
 	"testing"
 	"time"
 
 	erpc "github.com/henrylee2cn/erpc/v6"
+	"github.com/henrylee2cn/erpc/v6/codec"
+	"github.com/henrylee2cn/erpc/v6/plugin/secure"
 	"pgregory.net/rapid"
 
 	"verifharness/vt"
@@ -290,4 +293,63 @@ func TestC14Pairs(t *testing.T) {
 		}
 	}
 	rec.SetExhaustive()
+}
+
+// TestC14Codecs: the body codecs are process-wide singletons that every session's goroutines
+// use at once (callers marshal, readers unmarshal, handlers' results are marshalled). Values of
+// struct types the process has not seen before arrive all the time (every new handler).
+func TestC14Codecs(t *testing.T) {
+	rec := vt.NewRec(t, "C14", "codecs", "2-8 goroutines marshal and unmarshal through one built-in body codec (json / xml / form / plain / protobuf) at the same time, each with values of struct types created for this case (reflect.StructOf, so the codec meets them for the first time concurrently); oracle: the Go race detector; every case non-trivial; distinct by case")
+	rapid.Check(t, func(t *rapid.T) {
+		name := rapid.SampledFrom([]string{"json", "xml", "form", "form", "plain", "protobuf"}).Draw(t, "codec")
+		g := rapid.IntRange(2, 8).Draw(t, "goroutines")
+		nf := rapid.IntRange(1, 4).Draw(t, "fields")
+		salt := rapid.IntRange(0, 1<<30).Draw(t, "salt")
+		rec.Case(fmt.Sprintf("%s|%d|%d|%d", name, g, nf, salt), true, "codec="+name)
+		if rec.WantSample() {
+			rec.Sample(map[string]interface{}{"codec": name, "goroutines": g, "fields": nf})
+		}
+		c, err := codec.GetByName(name)
+		if err != nil {
+			t.Fatalf("codec %s: %v", name, err)
+		}
+		start := make(chan struct{})
+		var wg sync.WaitGroup
+		for gi := 0; gi < g; gi++ {
+			wg.Add(1)
+			go func(gi int) {
+				defer wg.Done()
+				// a struct type nobody has used before
+				fields := make([]reflect.StructField, nf)
+				for i := range fields {
+					fn := fmt.Sprintf("F%d_%d_%d", i, gi, salt)
+					fields[i] = reflect.StructField{Name: fn, Type: reflect.TypeOf(""), Tag: reflect.StructTag(fmt.Sprintf(`json:"f%d" xml:"f%d" form:"f%d"`, i, i, i))}
+				}
+				typ := reflect.StructOf(fields)
+				<-start
+				for r := 0; r < 20; r++ {
+					var v, d interface{}
+					switch name {
+					case "plain":
+						s := fmt.Sprintf("g%dr%d", gi, r)
+						v, d = &s, new(string)
+					case "protobuf":
+						v, d = &secure.Encrypt{Ciphertext: fmt.Sprintf("g%dr%d", gi, r)}, new(secure.Encrypt)
+					default:
+						pv := reflect.New(typ)
+						for i := 0; i < nf; i++ {
+							pv.Elem().Field(i).SetString(fmt.Sprintf("g%dr%df%d", gi, r, i))
+						}
+						v, d = pv.Interface(), reflect.New(typ).Interface()
+					}
+					b, err := c.Marshal(v)
+					if err == nil {
+						c.Unmarshal(b, d)
+					}
+				}
+			}(gi)
+		}
+		close(start)
+		wg.Wait()
+	})
 }
